@@ -26,6 +26,9 @@ type FuncCFG struct {
 	expandedHead map[*cfg.Block]bool
 	Expanded     []string
 	regionOf     map[*cfg.Block]*region // nil entry = the analysed function itself
+	// CallsOpaque: Resolve/KeyAt do not look into spliced helpers for the value a call returns (the
+	// call itself is the value); parameters of spliced helpers are still mapped to their arguments
+	CallsOpaque bool
 }
 
 // region: one expanded call of a helper; the blocks copied from the callee belong to it.
@@ -545,7 +548,9 @@ func (f *FuncCFG) paramArg(obj types.Object, pt Point) (ast.Expr, Point, bool) {
 
 // Resolve follows e (evaluated at pt) through the parameters of expanded helpers and through
 // single reaching definitions to the expression it stands for.
-func (f *FuncCFG) Resolve(e ast.Expr, pt Point) (ast.Expr, Point) { return f.resolve(e, pt, true) }
+func (f *FuncCFG) Resolve(e ast.Expr, pt Point) (ast.Expr, Point) {
+	return f.resolve(e, pt, !f.CallsOpaque)
+}
 
 // ResolveToCall is Resolve that stops at the first call it reaches (it does not look into the
 // return value of an expanded helper): "which call produced this value".
@@ -1980,4 +1985,117 @@ func (f *FuncCFG) PathUnder(assign map[string]bool, avoid, target func(ast.Node)
 		return hit, true
 	}
 	return nil, false
+}
+
+// MapPath translates an access path (pathOf form, rooted at a variable "name@pos") that was
+// computed inside a spliced helper at pt into the frame of the outermost function: a root that is
+// the helper's receiver or a parameter is replaced by the path of the receiver expression /
+// argument at the call, region by region outwards.
+func (f *FuncCFG) MapPath(path string, pt Point) string {
+	for reg := f.regionOf[pt.B]; reg != nil; reg = reg.parent {
+		type bind struct {
+			obj types.Object
+			arg ast.Expr
+		}
+		var binds []bind
+		if reg.fd.Recv != nil && len(reg.fd.Recv.List) == 1 && len(reg.fd.Recv.List[0].Names) == 1 {
+			if se, ok := ast.Unparen(reg.call.Fun).(*ast.SelectorExpr); ok {
+				binds = append(binds, bind{f.Info.Defs[reg.fd.Recv.List[0].Names[0]], se.X})
+			}
+		}
+		i := 0
+		for _, fl := range reg.fd.Type.Params.List {
+			for _, nm := range fl.Names {
+				if i < len(reg.call.Args) {
+					binds = append(binds, bind{f.Info.Defs[nm], reg.call.Args[i]})
+				}
+				i++
+			}
+		}
+		for _, b := range binds {
+			if b.obj == nil {
+				continue
+			}
+			tok := fmt.Sprintf("%s@%d", b.obj.Name(), b.obj.Pos())
+			if path == tok || strings.HasPrefix(path, tok+".") {
+				if ap, ok := pathOf(f.Info, b.arg); ok {
+					path = ap + path[len(tok):]
+				}
+				break
+			}
+		}
+	}
+	return path
+}
+
+// splicedEverywhere: fd is a small unexported function or method whose every use in the package is
+// a direct statement-level call (no method value, go or defer), so that newFuncCFG splices it into
+// each caller; obligations about what happens inside it are then judged in the callers' graphs.
+func splicedEverywhere(p *Prog, pkg string, fd *ast.FuncDecl) bool {
+	if fd.Body == nil || fd.Name.IsExported() || stmtCount(fd.Body) > expandMaxStmts {
+		return false
+	}
+	info := p.Pkg(pkg).TypesInfo
+	target, _ := info.Defs[fd.Name].(*types.Func)
+	if target == nil {
+		return false
+	}
+	n, ok := 0, true
+	for _, caller := range p.AllFuncDecls(pkg) {
+		if caller.Body == nil || caller == fd {
+			continue
+		}
+		var stack []ast.Node
+		ast.Inspect(caller.Body, func(nd ast.Node) bool {
+			if nd == nil {
+				stack = stack[:len(stack)-1]
+				return true
+			}
+			stack = append(stack, nd)
+			id, isId := nd.(*ast.Ident)
+			if !isId {
+				return true
+			}
+			fn, _ := info.Uses[id].(*types.Func)
+			if fn == nil || fn.Origin() != target {
+				return true
+			}
+			// the identifier must be the callee of a call that is a whole statement-level expression
+			k := len(stack) - 2
+			if k >= 0 {
+				if se, isSel := stack[k].(*ast.SelectorExpr); isSel && se.Sel == id {
+					k--
+				}
+			}
+			if k < 1 {
+				ok = false
+				return true
+			}
+			call, isCall := stack[k].(*ast.CallExpr)
+			if !isCall {
+				ok = false
+				return true
+			}
+			switch par := stack[k-1].(type) {
+			case *ast.ExprStmt:
+				n++
+			case *ast.AssignStmt:
+				if len(par.Rhs) == 1 && ast.Unparen(par.Rhs[0]) == ast.Expr(call) {
+					n++
+				} else {
+					ok = false
+				}
+			case *ast.ReturnStmt:
+				if len(par.Results) == 1 && ast.Unparen(par.Results[0]) == ast.Expr(call) {
+					n++
+				} else {
+					ok = false
+				}
+			default:
+				ok = false
+			}
+			return true
+		})
+	}
+	return ok && n > 0
 }
